@@ -5,7 +5,7 @@ import math
 
 import numpy as np
 
-from .. import cards, common, realrun
+from .. import translate_effects, cards, common, realrun
 from ..common import Driver, q, unq
 
 T_KEYS = ["FNS", "NfFF", "PTO", "PTODIS", "FONLLParts", "kcThr", "kbThr", "ktThr", "ZMc", "ZMb", "ZMt", "RenScaleVar", "FactScaleVar", "alphaqed", "alphaem", "QED", "order", "CKM", "mc", "extra"]
@@ -245,13 +245,22 @@ def search_runs(chk, r, n):
 def run(tier):
     chk = common.Check("C20", tier)
     thorough = tier == "thorough"
+    # effects of the functions that receive the caller's cards, regenerated from the syntax trees
+    try:
+        tr, _ = translate_effects.regenerate()
+        n_writes = sum(1 for s in tr["update"]["stmts"] if s[0] == "write")
+        n_copies = sum(1 for s in tr["update"]["stmts"] if s[0] == "copy")
+        chk.obligation("effects-translated", n_writes > 0 and n_copies == 2, f"update: {n_copies} copies, {n_writes} stores; roots: " + ", ".join(f"{k}: {len(v['stmts'])} statements / {len(v['escapes'])} escapes" for k, v in tr.items()))
+        chk.notes.append("effect translator: " + "; ".join(f"{k} = {v['source']} ({len(v['stmts'])} statements, {len(v['escapes'])} escapes)" for k, v in tr.items()))
+    except Exception as e:  # noqa
+        chk.obligation("effects-translated", False, f"{type(e).__name__}: {e}"[:300])
     common.lean_proof_step(chk, "YadismModel.Properties.C20", thorough=thorough)
     r = common.rng("C20")
     corr_update(chk, r, 3000 if thorough else 300)
     search_runs(chk, r, 80 if thorough else 10)
     chk.assumptions += [
-        "the model is functional: 'the caller's dict is not written' is observed on the real function (deep comparison before/after, every run), and proved in the model as a frame property (non-owned keys keep the very same reference)",
-        "idempotence of update is proved on a concrete instance in Lean (decide) and observed on every random card; the general Lean proof is not done (PARTIAL for that clause)",
-        "that no other module mutates a card during a run is covered by the deep comparison of real runs only",
+        "'the caller's dicts are not written': proved on a heap model (Model/Heap.lean: objects at locations, .copy() allocates, nested objects shared) for the effect lists regenerated each run from the syntax trees of compatibility.update (callees inlined), CouplingConstants.from_dict, Runner.__init__, StructureFunction.load, CrossSection.load: every store goes at depth 0 into an object the function created itself, for every branch / value / alias (Heap.safe_preserves + decided `safe`); trusted: the syntactic classification of stores and mutating methods in harness/translate_effects.py (anything unknown is refused), that class instantiation and dict/list displays return new objects, that `self` is not one of the caller's objects",
+        "where the cards leave the analysed code (eko's XGrid / InterpolatorDispatcher, the scale-variation manager, the ESF / EXS constructors reached through load, numpy conversions, logging) is a decided table (escapes_known); what those callees do with the caller's nested objects is observed by the deep comparison of real runs only",
+        "the functional model of update (Model/Compat.lean) carries the frame property (non-owned keys keep the very same reference) and idempotence for every card (update_idempotent)",
     ]
     return chk
